@@ -41,8 +41,18 @@ class FakeConn:
 
     def __init__(self, uri, *a, **k):
         w = FakeConn.world
+        if not w.peer.open and w.sc.get('reopen') is not None and not w.peer.refuse:
+            # the node comes back after `reopen` refused attempts
+            w.attempts += 1
+            if w.attempts > w.sc['reopen']:
+                w.peer.open = True
+                w.peer.closed_by = None
+                del w.peer.c2p[:]
+                del w.peer.p2c[:]
+                w.sched.log(ev='peer_reopen')
         if w.peer.refuse or not w.peer.open:
             from frappy.errors import CommunicationFailedError
+            w.sched.log(ev='connect_refused')
             raise CommunicationFailedError('can not connect (refused)')
         self.w = w
         self.peer = w.peer
@@ -101,10 +111,12 @@ class FakeConn:
 
 
 class World:
-    def __init__(self, strategy, line_level=False, max_steps=20000):
+    def __init__(self, strategy, line_level=False, max_steps=20000, sc=None):
         boot()
         import frappy.client as fc
         self.fc = fc
+        self.sc = sc or {}
+        self.attempts = 0
         self.sched = ds.Scheduler(strategy, max_steps=max_steps,
                                   trace_files=('frappy/client/__init__.py',) if line_level else ())
         self.peer = Peer(self.sched, None)
@@ -118,7 +130,7 @@ class World:
         fc = self.fc
 
         class Client(fc.SecopClient):
-            activate = False
+            activate = bool(self.sc.get('activate'))
 
             def __del__(self):   # finalizers must not touch primitives of later runs
                 pass
@@ -140,7 +152,7 @@ def run_scenario(sc, strategy, line_level=False, max_steps=6000):
     """sc: dict(callers=[(action, ident)], updates=n, streaming=bool, drop=bool, user=bool,
                 ignore=[request indices the peer never answers])
     returns dict(events, results, flags)"""
-    w = World(strategy, line_level, max_steps)
+    w = World(strategy, line_level, max_steps, sc)
     ds.HINT_PREFIX = 'c'
     s = w.sched
     peer = w.peer
@@ -164,6 +176,9 @@ def run_scenario(sc, strategy, line_level=False, max_steps=6000):
             if action == 'describe':
                 peer.p2c.append('describing . ' + json.dumps(DESCR))
                 continue
+            if action == 'activate':
+                peer.p2c.append('active')
+                continue
             gid = None
             if action != 'ping':
                 gid = int(parts[2]) if len(parts) > 2 else 0     # the caller index travels as data
@@ -172,6 +187,8 @@ def run_scenario(sc, strategy, line_level=False, max_steps=6000):
                 continue
             s.yield_('peer.answer')
             if not peer.open:
+                if sc.get('reopen') is not None:
+                    continue
                 return
             if action == 'ping':
                 peer.p2c.append(f'pong {ident} [null, {{"t": 1}}]')
@@ -216,6 +233,8 @@ def run_scenario(sc, strategy, line_level=False, max_steps=6000):
 
     def user():
         s.block(lambda: passed['n'] >= ncall, None, 'user.wait')
+        if sc.get('user_after'):
+            s.sleep(sc['user_after'])
         s.yield_('user')
         s.log(ev='disc_call', who='user')
         try:
@@ -258,6 +277,7 @@ def run_scenario(sc, strategy, line_level=False, max_steps=6000):
 
     def main():
         c = w.make_client()
+        c.register_callback(None, nodeStateChange=lambda online, state: s.log(ev='state', online=bool(online), state=state))
         c.connect()
         c.txq.name = 'txq'
         c.pending.name = 'pending'
